@@ -67,8 +67,10 @@ def classify(v):
         return "C02-loops-misread"
     if f.get("cyclic") and kind.startswith("reject"):
         return "C02-loops-rejected"
-    if f.get("ctx_before_jump") and kind.startswith("reject"):
-        return "C02-ctx-jump"
+    if f.get("entry_jump_targeted") and kind.startswith("behaviour-diff"):
+        return "C02-entry-jump-targeted"
+    if (f.get("ctx_before_jump") or f.get("ctx_before_block")) and kind.startswith("reject"):
+        return "C02-ctx-before-block"
     return None
 
 
